@@ -497,18 +497,7 @@ def _default_is_rejected(f, cfg, call):
 def _r9_in(p, rep, f):
     cfg = common.cfg_of(f)
     n = 0
-    for node in walk_no_nested(f.node):
-        sel = None
-        if isinstance(node, ast.Call) and isinstance(node.func, ast.Name) and node.func.id == "next" and node.args and isinstance(node.args[0], ast.Call) and isinstance(node.args[0].func, ast.Name) and node.args[0].func.id == "iter" and node.args[0].args:
-            sel = node.args[0].args[0]
-        elif isinstance(node, ast.Call) and isinstance(node.func, ast.Attribute) and node.func.attr == "pop" and not node.args:
-            sel = node.func.value
-        elif isinstance(node, ast.Subscript) and isinstance(node.ctx, ast.Load) and isinstance(node.slice, ast.Constant) and node.slice.value in (0, -1) and isinstance(node.value, ast.Call) and isinstance(node.value.func, ast.Name) and node.value.func.id in ("list", "tuple", "sorted") and node.value.args:
-            sel = node.value.args[0]
-        if isinstance(node, ast.Assign) and len(node.targets) == 1 and isinstance(node.targets[0], (ast.Tuple, ast.List)) and len(node.targets[0].elts) == 1 and isinstance(node.value, ast.Name):
-            sel = node.value  # `(x,) = S`: takes the only element
-        if not isinstance(sel, ast.Name):
-            continue
+    for node, sel, _form in common.take_one_sites(f.node):
         # only selections from the solver result: a reaching definition of the name is (derived from) the value
         # sympy.solve returned
         rd = ReachingDefs(cfg)
